@@ -314,6 +314,12 @@ class LRI(dict):
                 setitem(k, F[k])
             return
 
+    def __len__(self):
+        # an evicting insert deletes one key before it stores the other;
+        # take the lock so that len() never observes the state in between
+        with self._lock:
+            return super().__len__()
+
     def __ior__(self, other):
         # dict.__ior__ would write to the dict storage only, bypassing
         # the linked list and the size limit
